@@ -173,6 +173,12 @@ func (s *server) onAccept(conn Conn) {
 		return nil
 	})
 	s.connections.Store(fd, nconn)
+	if !nconn.IsActive() {
+		// Closed (by the peer, through another poller) after the check above: its close
+		// callbacks, including the Delete registered above, may already have run, and
+		// nothing would ever remove the entry again (Shutdown could never return nil).
+		s.connections.Delete(fd)
+	}
 
 	// trigger onConnect asynchronously
 	nconn.onConnect()
